@@ -439,13 +439,15 @@ class Prov:
                 return r
         return self.project(t, e)
 
-    def _captured_ref(self, l, i):
+    def _captured_ref(self, l, i, _depth=0):
         if self._defs is None:
             self._collect_defs()
         ds = [d for d in self._defs if d[0] == l]
         if len(ds) != 1 or ds[0][2] == "term":
             return None
         _, dbb, didx, payload = ds[0]
+        if payload["k"] == "use" and payload["op"]["k"] in ("move", "copy") and not payload["op"]["place"]["p"] and _depth < 6:
+            return self._captured_ref(payload["op"]["place"]["l"], i, _depth + 1)     # the closure value was moved here
         if payload["k"] != "aggr" or i >= len(payload["ops"]):
             return None
         b = self._borrowed_lvalue(payload["ops"][i], dbb, didx, 1)
